@@ -4,7 +4,7 @@
 ID=$1; PROPS=$2; TIER=${3:-quick}
 cd /verif
 [ -z "$(git -C /repo status --porcelain)" ] || { echo "/repo not clean"; exit 2; }
-git -C /repo apply seeded/$ID/patch.diff || { echo "patch does not apply"; exit 2; }
+git -C /repo apply /verif/seeded/$ID/patch.diff || { echo "patch does not apply"; exit 2; }
 trap 'git -C /repo checkout -- . ; echo "(repo restored)"' EXIT INT TERM
 for P in $(echo $PROPS | tr , ' '); do
   s=$(date +%s)
